@@ -450,6 +450,13 @@ class BuiltinMixin:
                 self.set_store(sv, self.set_mem(r))
                 return NONEV
             return r
+        if name == 'issuperset' and self.force(args[0]).kind.is_list:
+            o = self.force(args[0])
+            j = z3.Int('j!sup')
+            el, n_ = self.list_elems(o), self.list_len(o)
+            return SV(BOOL, z3.ForAll([j], z3.Implies(z3.And(0 <= j, j < n_),
+                                                      z3.Select(mem, z3.Select(el, j))),
+                                      patterns=[z3.Select(el, j)]))
         if name in ('issubset', 'issuperset', 'isdisjoint'):
             o = self.force(args[0])
             if not o.kind.is_set:
@@ -800,6 +807,34 @@ class BuiltinMixin:
             if hook:
                 hook(S, n, i, term, ctx)
             return SV(INT, S(n))
+        if fn is list and it.kind.is_list and val.kind not in (CONST, PYTUPLE, NONE) and val.t is not None:
+            # [elt(x) for x in xs if cond(x)]: an order-preserving selection of xs.
+            # f : result index -> source index (strictly increasing, onto the selected ones)
+            ek = val.kind
+            elt = gen_(val.t)
+            tag = p.fresh_name('')
+            f = z3.Function('sel_src' + tag, I, I)
+            g = z3.Function('sel_dst' + tag, I, I)
+            m = p.fresh('nsel', I)
+            L = self.new_ref(Kind('list', (ek,)))
+            arr = p.fresh('sel', z3.ArraySort(I, sort_of(ek)))
+            p.bounds[str(arr)] = p.next
+            self.list_set_content(L, m, arr)
+            j, j2 = z3.Int('j!sel'), z3.Int('k!sel')
+            p.assume(z3.And(m >= 0, m <= n))
+            p.assume(z3.ForAll([j], z3.Implies(
+                z3.And(0 <= j, j < m),
+                z3.And(0 <= f(j), f(j) < n, z3.substitute(cond, (i, f(j))),
+                       z3.Select(arr, j) == z3.substitute(elt, (i, f(j))), g(f(j)) == j)),
+                patterns=[z3.Select(arr, j)]))
+            p.assume(z3.ForAll([i], z3.Implies(
+                z3.And(guard, cond), z3.And(0 <= g(i), g(i) < m, f(g(i)) == i)),
+                patterns=[g(i), z3.Select(ctx[3], i)] if ctx[0] == 'list' else [g(i)]))
+            p.assume(z3.ForAll([j, j2], z3.Implies(z3.And(0 <= j, j < j2, j2 < m), f(j) < f(j2)),
+                               patterns=[z3.MultiPattern(f(j), f(j2))]))
+            # handle for specs / hooks: which source index each result element came from
+            p.__dict__.setdefault('selections', []).append((L, f, g, m))
+            return L
         raise Unsupported(f'{fn.__name__}(comprehension over symbolic iterable)')
 
 
